@@ -143,8 +143,8 @@ func Modify(node Node, f func(Node) (Node, bool)) (Node, bool) { //nolint:funlen
 		n := *node
 		return f(&n) // silly go optimizes &(*node) to node (ptr) so need 2 steps
 	case *IntegerLiteral:
-		n := node
-		return f(n)
+		n := *node
+		return f(&n)
 	case *FloatLiteral:
 		n := *node
 		return f(&n)
